@@ -329,7 +329,7 @@ func genRemote(rng *rand.Rand, i int, phase string) (*Case, map[string]string) {
 		if rng.IntN(2) == 0 {
 			c.Filter = append(palette[1:], "application/vnd.absent+x")[rng.IntN(4)]
 		}
-		c.FilterMode = []string{"none", "header", "header-multi", "annotation", "undeclared"}[rng.IntN(5)]
+		c.FilterMode = []string{"none", "header", "header-multi", "annotation", "undeclared", "header-then-none", "annotation-then-none"}[rng.IntN(7)]
 		if c.Filter == "" {
 			cls["filter"] = "nofilter"
 		} else {
@@ -501,6 +501,9 @@ func runRemote(rng *rand.Rand, i int, phase string) (res worker.Result) {
 	client := &http.Client{Transport: rt}
 
 	var delivered []string
+	// the slices exactly as handed to the callback, kept without copying and read only after the listing
+	var keptS [][]string
+	var keptR [][]ocispec.Descriptor
 	cbCalls, reqsAtFail, callsAfterFail := 0, -1, 0
 	note := func(keys []string) error {
 		if reqsAtFail >= 0 {
@@ -528,7 +531,10 @@ func runRemote(rng *rand.Rand, i int, phase string) (res worker.Result) {
 		reg.Client = client
 		reg.RepositoryListPageSize = c.ClientN
 		reg.MaxMetadataBytes = c.MaxMeta
-		err = reg.Repositories(ctx, c.Last, func(repos []string) error { return note(append([]string{}, repos...)) })
+		err = reg.Repositories(ctx, c.Last, func(repos []string) error {
+			keptS = append(keptS, repos)
+			return note(append([]string{}, repos...))
+		})
 	default:
 		repo, e := remote.NewRepository(fmt.Sprintf("%s/c15/r%d", host, i))
 		if e != nil {
@@ -547,10 +553,14 @@ func runRemote(rng *rand.Rand, i int, phase string) (res worker.Result) {
 			repo.SetReferrersCapability(false)
 		}
 		if c.Target == "tags" {
-			err = repo.Tags(ctx, c.Last, func(tags []string) error { return note(append([]string{}, tags...)) })
+			err = repo.Tags(ctx, c.Last, func(tags []string) error {
+				keptS = append(keptS, tags)
+				return note(append([]string{}, tags...))
+			})
 		} else {
 			subject := ocispec.Descriptor{MediaType: ocispec.MediaTypeImageManifest, Digest: digest.Digest(sha256Of([]byte(fmt.Sprintf("subject-%d", i)))), Size: 321}
 			err = repo.Referrers(ctx, subject, c.Filter, func(refs []ocispec.Descriptor) error {
+				keptR = append(keptR, refs)
 				keys := make([]string, len(refs))
 				for k, d := range refs {
 					keys[k] = refKey(d)
@@ -560,6 +570,21 @@ func runRemote(rng *rand.Rand, i int, phase string) (res worker.Result) {
 		}
 	}
 	judge(&res, c, cls, sc, rt, delivered, cbCalls, reqsAtFail, callsAfterFail, err, i)
+	// what the callback was given must still be what it holds once the listing is over
+	var retained []string
+	for _, s := range keptS {
+		retained = append(retained, s...)
+	}
+	for _, s := range keptR {
+		for _, d := range s {
+			retained = append(retained, refKey(d))
+		}
+	}
+	if !equal(retained, delivered) {
+		res.Violate("callback-slice-overwritten:"+c.Target, fmt.Sprintf("%s: the slices handed to the callback changed after the callback returned (first difference at item %d of %d)", c.Target, firstDiff(retained, delivered), len(delivered)),
+			map[string]any{"case": c, "at_callback_time": trimKeys(delivered), "after_listing": trimKeys(retained)})
+	}
+	res.Count("callback_slices_retained", int64(len(keptS)+len(keptR)))
 	return res
 }
 
@@ -784,6 +809,11 @@ func judge(res *worker.Result, c *Case, cls map[string]string, sc *script, rt *c
 	}
 
 	// evidence
+	for _, s := range log {
+		if s.Keyless {
+			res.Count("keyless_pages_served", 1)
+		}
+	}
 	nOverride := 0
 	for k, s := range log {
 		if k > 0 && s.Note != "" && strings.HasPrefix(s.Note, "link parameter") {
